@@ -75,7 +75,22 @@ func BuildCopyBin(scn M, rng *rand.Rand) (oids []int, st *binStream) {
 	}
 	st = &binStream{}
 	if B(scn, "hdr") {
-		st.add(copySignature[:5], copySignature[5:], u32(0), u32(0))
+		// flags: the low 16 bits are free for the sender; then the length of the header extension area and the
+		// area itself (one cell of the scenario = a non-empty run of bytes), which a reader skips
+		var ext [][]byte
+		extLen := 0
+		for i := 0; i < I(scn, "ext"); i++ {
+			cell := make([]byte, 1+rng.Intn(6))
+			rng.Read(cell)
+			ext = append(ext, cell)
+			extLen += len(cell)
+		}
+		flags := 0
+		if len(ext) > 0 || rng.Intn(4) == 0 {
+			flags = rng.Intn(1 << 16)
+		}
+		st.add(copySignature[:5], copySignature[5:], u32(flags), u32(extLen))
+		st.add(ext...)
 	}
 	corrupt := Sub(scn, "corrupt")
 	for ri, rv := range table {
@@ -250,7 +265,17 @@ func PlayCopyBin(scn M, rng *rand.Rand) ([]M, error) {
 	conn.WaitQuiet(WaitTimeout) //nolint
 	conn.Send(pgw.Startup(pgw.Version30, [][2]string{{"user", "u"}}, true))
 	conn.WaitQuiet(WaitTimeout) //nolint
-	conn.Send(pgw.Query("q1"))
+	startMsg := pgw.Query("q1")
+	if I(scn, "_i")%3 == 1 && len(stream) > 0 && len(stream)+16 < limit {
+		// surplus bytes inside the message that starts the COPY, behind the terminator of the query text, shaped
+		// like the COPY stream itself (or like a lone tuple): rows come from CopyData messages only
+		surplus := stream
+		if rng.Intn(2) == 0 {
+			surplus = []byte{0, 1, 0, 0, 0, 4, 0, 0, 0, 42}
+		}
+		startMsg = pgw.Typed('Q', append(append([]byte("q1"), 0), surplus...))
+	}
+	conn.Send(startMsg)
 	conn.WaitQuiet(WaitTimeout) //nolint
 	for _, ch := range chunks {
 		conn.Send(pgw.CopyData(ch))
